@@ -107,6 +107,7 @@ func checkC04(c *core.Ctx) error {
 	root := c.Root
 	d := newDeclIndex(c)
 	sizes := []int{2, 3}
+	// (n = 4 has 64 pivot branches over 4x4 rational functions and does not finish in ten minutes)
 	// ---- R1 / R2: Gauss-Jordan
 	if p := c.Pkg("algorithm/gaussJordan"); p == nil {
 		c.Unknown("C04.R1", "algorithm/gaussJordan", "package loaded", token.NoPos, "not loaded")
@@ -134,7 +135,7 @@ func checkC04(c *core.Ctx) error {
 				}
 				cfg := vn.Config{Pkg: p, TypeName: "Real64", Spec: distSpec, InlineOps: inlineOps, Decl: d.find, ParamNames: true, MaxDepth: 8, UnrollConst: true, FiniteSyms: true,
 					Borrow: c04Borrow(root), ParamFresh: true,
-					ParamValues: map[string]vn.Value{"a": symMat(n, "a", variant.upper), "x": symMat(n, "x", variant.upper), "b": vn.NewLocalVec(bs...), "submatrix": sub}}
+					ParamList: []vn.Value{symMat(n, "a", variant.upper), symMat(n, "x", variant.upper), vn.NewLocalVec(bs...), sub}}
 				paths, und := vn.Run(cfg, fd)
 				if und != nil {
 					c.Unknown(variant.rule, cons, "interpreted "+tag, und.Pos, variant.fn+" left the interpreter's idiom set: "+und.Msg)
@@ -146,9 +147,21 @@ func checkC04(c *core.Ctx) error {
 					}
 					return symf("a_%d_%d", i, j)
 				}
-				nGood := 0
+				nGood, nDegenerate := 0, 0
 				for _, pa := range paths {
 					if _, isErr := pa.Ret.(*vn.ErrVal); isErr {
+						continue
+					}
+					// a branch that assumes an equality between entries (x == 0 shortcuts) is not a generic input: the identities
+					// are claimed for branches made of strict inequalities only
+					degenerate := false
+					for _, cv := range pa.Conds {
+						if cv.C.Op == "eq" && cv.V {
+							degenerate = true
+						}
+					}
+					if degenerate {
+						nDegenerate++
 						continue
 					}
 					if pa.Panic {
@@ -218,6 +231,9 @@ func checkC04(c *core.Ctx) error {
 				}
 				c.Check(nGood >= 1, variant.rule, cons, "has a successful branch "+tag, fd.Pos(), "no successful branch")
 				c.Analysed[fmt.Sprintf("%s_branches_n%d", variant.fn, n)] = nGood
+				if nDegenerate > 0 {
+					c.Analysed[fmt.Sprintf("%s_degenerate_branches_skipped_n%d", variant.fn, n)] = nDegenerate
+				}
 			}
 		}
 	}
@@ -238,7 +254,7 @@ func checkC04(c *core.Ctx) error {
 			X := vn.NewLocalVec(xs...)
 			in := &vn.StructVal{T: namedType(p, "InSitu"), Fields: map[string]vn.Value{"A": symMat(n, "a", true), "X": X, "T": &vn.Loc{Name: "t", Val: symf("stale_t"), Consistent: true}}}
 			cfg := vn.Config{Pkg: p, TypeName: "Real64", Spec: distSpec, InlineOps: inlineOps, Decl: d.find, ParamNames: true, MaxDepth: 8, UnrollConst: true, FiniteSyms: true,
-				Borrow: c04Borrow(root), ParamValues: map[string]vn.Value{"inSitu": in, "b": vn.NewLocalVec(bs...)}}
+				Borrow: c04Borrow(root), ParamList: []vn.Value{in, vn.NewLocalVec(bs...)}}
 			paths, und := vn.Run(cfg, fd)
 			if und != nil {
 				c.Unknown("C04.R2", cons, "interpreted "+tag, und.Pos, "backSubstitution left the interpreter's idiom set: "+und.Msg)
@@ -279,7 +295,7 @@ func checkC04(c *core.Ctx) error {
 		for _, n := range ds {
 			tag := fmt.Sprintf("[n=%d]", n)
 			cfg := vn.Config{Pkg: p, TypeName: "Real64", Spec: distSpec, InlineOps: inlineOps, Decl: d.find, ParamNames: true, MaxDepth: 10, UnrollConst: true, FiniteSyms: true,
-				Borrow: c04Borrow(root), ParamValues: map[string]vn.Value{"a": symMat(n, "a", false)}}
+				Borrow: c04Borrow(root), ParamList: []vn.Value{symMat(n, "a", false)}}
 			paths, und := vn.Run(cfg, fd)
 			if und != nil {
 				c.Unknown("C04.R3", cons, "interpreted "+tag, und.Pos, "determinantNaive left the interpreter's idiom set: "+und.Msg)
